@@ -207,9 +207,10 @@ func TestVerifC20Sched(t *testing.T) {
 	r := ev.Begin("C20", "sched")
 	defer r.End(t)
 	r.Rule = "executions = goroutine schedules within the deviation bound of the instrumented real Server.Serve (errgroup, readiness WaitGroup, signal task, terminator, recording sdnotify) supervising 2-3 fake tasks with behaviours {runs until cancelled, slow to stop, fails while working, returns nil early, never ready} and a signal thread {none, SIGTERM, SIGINT, SIGHUP} (9 cases); oracle on the ordered log: Serve returns only after every task's Run exited, returns the first failing task's error else nil, every terminate() read after observing a signal's cancellation = (signal != SIGHUP), READY=1 at most once and only after every task started and closed Ready, never if a task never becomes ready"
-	bound := 2
-	if r.Thorough() {
-		bound = 3
+	name := func(c c20Case) string { return c.Name }
+	exploreCases(t, r, c20Cases(), name, c20Scenario, exploreOpts{Bound: 2})
+	if r.Thorough() && r.Replay == nil {
+		// Bound 3 under a per-case wall-clock budget (a cap is reported as exhaustive=false; bound 2 stays complete).
+		exploreCases(t, r, c20Cases(), name, c20Scenario, exploreOpts{Bound: 3, Budget: 40 * time.Second})
 	}
-	exploreCases(t, r, c20Cases(), func(c c20Case) string { return c.Name }, c20Scenario, exploreOpts{Bound: bound})
 }
